@@ -225,6 +225,10 @@ package sonic
 //@   prop C13
 //@   requires len(network) >= 3
 //@   ensures [no-leak] result1 != nil ==> (forall k :: FDOPEN[k] == old(FDOPEN[k]))
+//@   // success hands out a connection whose descriptor is open
+//@   remember after call CreateSocketUDP: made = result2 == nil
+//@   remember after call CreateSocketUDP: nfd := result0
+//@   ensures [opened] result1 == nil ==> made && FDOPEN[nfd] == 1 && result0 != nil
 
 //@ func Listen
 //@   prop C13
